@@ -67,6 +67,8 @@ type e2eCase struct {
 	Etag   int     `json:"etag,omitempty"` // 0 = the server sends no ETag
 	Data   string  `json:"data,omitempty"`
 	Ops    []e2eOp `json:"ops,omitempty"`
+	// inst (retry_install.go)
+	Inst []instPkg `json:"inst,omitempty"`
 	// pkgs
 	Datas     []string `json:"datas,omitempty"`
 	Script    []rConn  `json:"script,omitempty"`
@@ -170,6 +172,12 @@ func (retryE2ESuite) Gen(r *Rng, i int, tier string) any {
 			d = d[:200+r.Intn(300)]
 		}
 		return d
+	}
+	if i%8 == 5 {
+		// the whole of InstallPackages over a faulty network (drawn from its own stream: the other kinds keep theirs)
+		c.Kind = "inst"
+		c.Inst = genInstCase(&Rng{s: r.s ^ 0x1f83d9abfb41bd6b})
+		return c
 	}
 	if r.Chance(35) {
 		c.Kind = "pkgs"
@@ -364,6 +372,9 @@ func (retryE2ESuite) Run(raw json.RawMessage) []Step {
 	defer os.RemoveAll(dir)
 	if c.Kind == "pkgs" {
 		return e2eRunPkgs(ctx, c, dir)
+	}
+	if c.Kind == "inst" {
+		return instRun(c.Inst)
 	}
 	return e2eRunHist(ctx, c, dir)
 }
